@@ -1115,7 +1115,36 @@ int main(void) {
       uint8_t *path;
       unhex0(tv[1], &path);
       put_ptr((char*) path);
+      {
+        // jbl_ptr_serialize of the parsed pointer, and the serialised text parsed again
+        struct jbl_ptr *jp = 0;
+        if (!jbl_ptr_alloc((char*) path, &jp)) {
+          struct iwxstr *x = iwxstr_create_empty();
+          iwrc rc = jbl_ptr_serialize(jp, x);
+          printf(" ser=%s:", rcname(rc));
+          if (!rc) puthex(iwxstr_ptr(x), iwxstr_size(x));
+          if (!rc) {
+            struct jbl_ptr *jp2 = 0;
+            iwrc r2 = jbl_ptr_alloc(iwxstr_ptr(x), &jp2);
+            printf(" again=%s", r2 ? rcname(r2) : (jbl_ptr_cmp(jp, jp2) == 0 ? "same" : "other"));
+            if (jp2) free(jp2);
+          }
+          iwxstr_destroy(x);
+          free(jp);
+        }
+      }
       free(path);
+    } else if (!strcmp(tv[0], "pcmp") && n >= 3) {
+      // pcmp <hex ptr> <hex ptr>: sign of jbl_ptr_cmp on the two parsed pointers
+      uint8_t *p1, *p2;
+      unhex0(tv[1], &p1);
+      unhex0(tv[2], &p2);
+      struct jbl_ptr *j1 = 0, *j2 = 0;
+      iwrc r1 = jbl_ptr_alloc((char*) p1, &j1), r2 = jbl_ptr_alloc((char*) p2, &j2);
+      if (r1 || r2) printf("c=NA"); else printf("c=%d", sgn(jbl_ptr_cmp(j1, j2)));
+      if (j1) free(j1);
+      if (j2) free(j2);
+      free(p1); free(p2);
     } else {
       printf("?");
     }
